@@ -1,13 +1,14 @@
 //! rvh — conformance harness binding the TLA+ specifications to the real renet / renetcode code.
 mod msg;
 mod nc;
+mod stack;
 mod util;
 
 use std::fs::File;
 use std::io::{BufRead, BufReader, BufWriter, Write};
 
 fn usage() -> ! {
-    eprintln!("usage: rvh msg|nc <schedules.ndjson> <trace-out.ndjson>");
+    eprintln!("usage: rvh msg|nc|stack <schedules.ndjson> <trace-out.ndjson>");
     std::process::exit(2)
 }
 
@@ -51,6 +52,31 @@ fn main() {
             let inp = BufReader::new(File::open(&args[2]).expect("open schedules"));
             let out = BufWriter::new(File::create(&args[3]).expect("create trace"));
             let mut r = nc::NcRunner {
+                out,
+                run: 0,
+                i: 0,
+                events: 0,
+                panics: 0,
+                skipped: 0,
+            };
+            for line in inp.lines() {
+                let line = line.expect("read");
+                if line.trim().is_empty() {
+                    continue;
+                }
+                let sched: serde_json::Value = serde_json::from_str(&line).expect("schedule json");
+                r.run_schedule(&sched);
+            }
+            r.out.flush().unwrap();
+            println!("{}", serde_json::json!({"runs": r.run, "events": r.events, "panics": r.panics, "skipped": r.skipped}));
+        }
+        "stack" => {
+            if args.len() < 4 {
+                usage();
+            }
+            let inp = BufReader::new(File::open(&args[2]).expect("open schedules"));
+            let out = BufWriter::new(File::create(&args[3]).expect("create trace"));
+            let mut r = stack::StackRunner {
                 out,
                 run: 0,
                 i: 0,
